@@ -10,6 +10,7 @@ import (
 	"verif/props/c01"
 	"verif/props/c02"
 	"verif/props/c03"
+	"verif/props/c08"
 	"verif/props/c09"
 	"verif/props/c10"
 	"verif/props/c11"
@@ -30,6 +31,7 @@ var props = map[string]prop{
 	"C01": {"exploration", c01.Run},
 	"C02": {"exploration", c02.Run},
 	"C03": {"exploration", c03.Run},
+	"C08": {"exploration", c08.Run},
 	"C09": {"model_checking", c09.Run},
 	"C10": {"model_checking", c10.Run},
 	"C11": {"model_checking", c11.Run},
